@@ -32,8 +32,18 @@ RULE = ('PARSE: images built by an independent HPM.1 encoder (harness twin of Sp
         '(data exact, numbered i mod 256, 0 < len <= 22, status poll right after every 80h, the next block only after '
         'the status reported the final 00h, HpmError and nothing sent after another code - be it the answer to the block '
         'or the final code of its long duration command -, no further block and no normal return while 80h is still '
-        'reported).  Distinct by (image bytes) / (binary, plan, timing); non-trivial = at least one '
-        'record / one block.')
+        'reported).  ARGUMENT FORM of the binary (generator dimension, harness/sim/dev18.FORMS): bytes, bytearray, list of '
+        'ints, array(\'B\') and str with one character per byte over the full range 00h..FFh (the form '
+        'upload_firmware_block has its isinstance(data, str) branch for) - every directed size in all five forms, ten '
+        'directed binaries chosen for their VALUES (7F 80 FF, every byte value, 7-bit only, FFh x 45, a high byte at a '
+        'block end, UTF-8 looking) x five forms x {no 80h, some blocks 80h}, and the form of every random upload '
+        'drawn from the five; the oracle is the same (the device must see the byte values of the binary, blocks <= 22) and so '
+        'is the model line (the model is a function of the byte values).  BLOCK: Hpm.upload_firmware_block(number, block) '
+        'itself with directed and random blocks of 0..22 bytes (all 7-bit, all 80h..FFh, mixed), numbers 0..255, in the '
+        'five forms: exactly one Upload firmware block request with that number and those bytes (harness oracle only).  A '
+        'finding of a non-bytes form is re-run with a bytes object; when that conforms the signature carries the form '
+        '(C18:upload:data:str-binary).  Distinct by (image bytes) / (binary, plan, timing, form) / (number, block, form); '
+        'non-trivial = at least one record / one block / one byte.')
 ASSUMPTIONS = [
     'models of pyipmi/hpm.py (parser, upload loop), fields.VersionField and utils.chunks are tied by the translator '
     '(offsets, lengths, byte orders, block size, masks, completion codes; statement-level AST templates, fail closed) '
@@ -57,6 +67,11 @@ ASSUMPTIONS = [
     'same UpgradeImage(filename) call the history stream drives',
     'the firmware description string is observed but, not being named by the property, only its ability to make '
     'the parse fail is judged',
+    'argument forms: a str binary means one character per byte, code points 00h..FFh (what the isinstance(data, str) '
+    'branch of upload_firmware_block converts with ord()); characters above FFh are not bytes and are not generated; '
+    'memoryview / file objects / iterators without len() are not generated (chunks() needs len and slicing).  The Lean '
+    'upload model takes the byte values (it has no notion of the Python type carrying them): a form-dependent '
+    'behaviour shows as a disagreement with the model and is judged by the device-side oracle on the real code',
 ]
 TRUSTED = ['harness/translate/hpm.py', 'harness/sim/dev18.py', 'harness/sim/pristine.py (fork server: histories run in a '
            'process that has parsed nothing yet)', 'harness/props/c18.py (independent encoder, oracle)']
@@ -956,8 +971,10 @@ def _pristine():
 # ------------------------------------------------------------------------------------------
 # upload
 # ------------------------------------------------------------------------------------------
-def run_upload(binary, plan, timeout, interval, lat, retry, prior=()):
+def run_upload(binary, plan, timeout, interval, lat, retry, prior=(), form='bytes'):
     """Drive the real Hpm.upload_binary against the reference device.  Returns (tag, now, device).
+    `form`: the argument form the binary is handed over in (dev18.FORMS: bytes, bytearray, list of ints, array('B'),
+    str with one character per byte) - the byte values, and so everything the device must see, are the same.
     `prior`: (binary hex, plan string) of uploads made BEFORE on the same Ipmi object (each against a device of
     its own); only the last upload is observed - it must not depend on what the object did earlier."""
     clock = dev18.VirtualClock()
@@ -976,7 +993,7 @@ def run_upload(binary, plan, timeout, interval, lat, retry, prior=()):
         ipmi.interface.device = dev
     with dev18.virtual_time(clock):
         try:
-            r = ipmi.upload_binary(binary, timeout=timeout, interval=interval, retry=retry)
+            r = ipmi.upload_binary(dev18.to_form(binary, form), timeout=timeout, interval=interval, retry=retry)
             tag = 'ok' if r is None else 'py:returned:%r' % (r,)
         except Exception as e:  # noqa
             tag = _tag(e)
@@ -1098,6 +1115,35 @@ def judge_upload(ctx, case, binary, plan, timeout, tag, dev):
     return ok and nblocks_needed >= 0
 
 
+def _form_sig(sig, form):
+    return '%s:%s-binary' % (sig, form)
+
+
+def upload_findings(case, binary, plan, tag, dev):
+    """judge_upload on what the device recorded -> [violation].  When the binary was handed over in another form
+    than bytes and the SAME upload (binary, plan, timing) made with a bytes object does not show a finding, the
+    finding belongs to the argument form: its signature says so (C18:upload:data:str-binary)."""
+    c = _Collect()
+    judge_upload(c, case, binary, plan, case['timeout'], tag, dev)
+    form = case.get('form', 'bytes')
+    if c.violations and form != 'bytes':
+        tag0, _, dev0 = run_upload(binary, plan, case['timeout'], case['interval'], case['lat'], case['retry'],
+                                   [tuple(x) for x in case.get('prior', [])])
+        c0 = _Collect()
+        judge_upload(c0, case, binary, plan, case['timeout'], tag0, dev0)
+        plain = set(v['signature'] for v in c0.violations)
+        for v in c.violations:
+            if v['signature'] not in plain:
+                v['signature'] = _form_sig(v['signature'], form)
+                v['what'] = 'binary given as %s: %s (the same upload made with a bytes object conforms)' % (
+                    FORM_NAMES[form], v['what'])
+    return c.violations
+
+
+FORM_NAMES = {'bytes': 'bytes', 'bytearray': 'bytearray', 'list': 'list of ints', 'array': "array('B')",
+              'str': 'str (one character per byte)'}
+
+
 def gen_plan(rng, nblocks, kind):
     if kind == 'none' or nblocks == 0:
         return []
@@ -1133,17 +1179,20 @@ UPLOAD_SIZES = [0, 1, 21, 22, 23, 43, 44, 45, 255 * 22 - 1, 255 * 22, 255 * 22 +
 TIMINGS = [(20, 1, 0), (20, 1, 0), (5, 2, 1), (1, 1, 0), (3, 1, 2), (7, 3, 0)]
 
 
-def check_upload(ctx, drv, bs, binary, plan, timing, retry, label, judge=True, sample=False, prior=()):
+def check_upload(ctx, drv, bs, binary, plan, timing, retry, label, judge=True, sample=False, prior=(), form='bytes'):
     timeout, interval, lat = timing
     case = {'kind': 'upload', 'label': label, 'binary': _hx(binary), 'plan': dev18.plan_str(plan),
-            'timeout': timeout, 'interval': interval, 'lat': lat, 'retry': retry}
+            'timeout': timeout, 'interval': interval, 'lat': lat, 'retry': retry, 'form': form}
     if prior:
         case['prior'] = [[a, b] for a, b in prior]
         ctx.count('upload:after-%d-earlier-uploads-on-the-same-object' % len(prior))
-    tag, now, dev = run_upload(binary, plan, timeout, interval, lat, retry, prior)
+    tag, now, dev = run_upload(binary, plan, timeout, interval, lat, retry, prior, form)
     toks = dev18.trace_tokens(dev.trace)
     nb = sum(1 for ev in dev.trace if ev[0] == 'B')
-    ctx.case(('upload', binary, case['plan'], timing, retry), nontrivial=nb > 0)
+    ctx.case(('upload', binary, case['plan'], timing, retry) + ((form,) if form != 'bytes' else ()), nontrivial=nb > 0)
+    ctx.count('upload:form=' + form)
+    if form == 'str':
+        ctx.count('upload:form=str:' + ('with-characters-80h..FFh' if any(b >= 0x80 for b in binary) else '7-bit-only'))
     ctx.count('upload:blocks=' + ('0' if nb == 0 else '1..255' if nb < 256 else '256' if nb == 256 else '>256'))
     ctx.count('upload:outcome=' + tag)
     ctx.count('upload:answered-80h', sum(1 for a in dev.answers if a == 0x80))
@@ -1153,9 +1202,9 @@ def check_upload(ctx, drv, bs, binary, plan, timing, retry, label, judge=True, s
     good = True
     silent = any(a is None for a in dev.answers)
     if judge:
-        before = len(ctx.violations)
-        judge_upload(ctx, case, binary, plan, timeout, tag, dev)
-        good = len(ctx.violations) == before
+        found = upload_findings(case, binary, plan, tag, dev)
+        ctx.violations.extend(found)
+        good = not found
     if drv is not None:
         m = drv.ask('upload %d %d %d %d %d %d %s %s' % (_CHECKED, bs, timeout, interval, lat, retry, _hx(binary),
                                                          case['plan']))
@@ -1196,12 +1245,28 @@ def _tok_diff(a, b):
     return '%d tokens' % len(ta)
 
 
-def upload_streams(ctx, drv, rng, scale):
+# binaries whose VALUES matter for the argument forms (text form: characters 80h..FFh, NUL, bytes that read as UTF-8)
+FORM_BINARIES = [
+    ('7f-80-ff', bytes([0x7f, 0x80, 0xff])),
+    ('every-byte-value', bytes(range(256))),
+    ('every-7-bit-value', bytes(range(128))),
+    ('ascii-text', b'plain ASCII firmware text 0123456789' * 3),
+    ('45xFF', b'\xff' * 45),
+    ('22x80', b'\x80' * 22),
+    ('one-high-byte-at-the-block-end', b'A' * 21 + b'\xe9' + b'B' * 21 + b'\x80'),
+    ('utf8-looking', 'Gr\u00fc\u00dfe \u20ac \u00e9t\u00e9'.encode('utf-8') * 3),
+    ('23-zero-bytes', bytes(23)),
+    ('high-half-descending', bytes(range(255, 127, -1))),
+]
+
+
+def upload_streams(ctx, drv, rng, scale, frng=None):
     import pyipmi.hpm as H
     try:
         bs = int(H.Hpm._determine_max_block_size())
     except Exception:  # noqa
         bs = 22
+    frng = frng or ctx.rng('upload-form')
     kinds = ['none', 'inprog', 'inprog', 'err', 'inprog+err', 'silent', 'inprog+silent', 'fail', 'inprog+fail']
     n = 0
     for size in UPLOAD_SIZES:
@@ -1212,6 +1277,18 @@ def upload_streams(ctx, drv, rng, scale):
             check_upload(ctx, drv, bs, binary, plan, rng.choice(TIMINGS), rng.choice([3, 3, 1, 2, 5]),
                          'size%d/%s' % (size, kind), sample=(n % 9 == 0))
             n += 1
+        # the same binary in every other argument form (the byte values are the same: so must the requests be)
+        for form in dev18.FORMS[1:]:
+            kind = 'none' if form != frng.choice(dev18.FORMS[1:]) else frng.choice(['inprog', 'inprog+err', 'fail'])
+            check_upload(ctx, drv, bs, binary, gen_plan(frng, nblocks, kind), frng.choice(TIMINGS), 3,
+                         'size%d/form-%s/%s' % (size, form, kind), form=form)
+    for name, binary in FORM_BINARIES:
+        nblocks = (len(binary) + bs - 1) // bs if bs > 0 else 0
+        for form in dev18.FORMS:
+            check_upload(ctx, drv, bs, binary, [], (20, 1, 0), 3, 'form-%s/%s/none' % (form, name), form=form,
+                         sample=(form == 'str' and name == 'every-byte-value'))
+            check_upload(ctx, drv, bs, binary, gen_plan(frng, nblocks, 'inprog'), (20, 1, 0), 3,
+                         'form-%s/%s/inprog' % (form, name), form=form)
     # every block answered 80h across the 255 -> 0 wrap; error exactly at the wrap
     binary = _rb(rng, 258 * 22)
     check_upload(ctx, drv, bs, binary, [('p', 1)] * 258, (20, 1, 0), 3, 'all-in-progress', sample=True)
@@ -1242,9 +1319,78 @@ def upload_streams(ctx, drv, rng, scale):
         nblocks = (size + bs - 1) // bs if bs > 0 else 0
         kind = rng.choice(kinds)
         check_upload(ctx, drv, bs, binary, gen_plan(rng, nblocks, kind), rng.choice(TIMINGS),
-                     rng.choice([3, 3, 1, 2, 5, 0]), 'random/' + kind)
+                     rng.choice([3, 3, 1, 2, 5, 0]), 'random/' + kind, form=frng.choice(dev18.FORMS))
         if ctx.time_left() < 20:
             break
+
+
+# ------------------------------------------------------------------------------------------
+# one block: Hpm.upload_firmware_block(number, block) in every argument form
+# ------------------------------------------------------------------------------------------
+def run_block(number, block, form):
+    """-> (tag, device): the requests one call of upload_firmware_block produces"""
+    dev = dev18.HpmDevice([])
+    ipmi = dev18.make_ipmi(dev)
+    try:
+        r = ipmi.upload_firmware_block(number, dev18.to_form(block, form))
+        tag = 'ok' if r is None else 'py:returned:%r' % (r,)
+    except Exception as e:  # noqa
+        tag = _tag(e)
+    return tag, dev
+
+
+def block_findings(case):
+    """Property oracle for one block: exactly one Upload firmware block request, carrying the number and the byte
+    values of the block.  A finding that the bytes form of the same block does not show is named after the form."""
+    block = b'' if case['block'] == '-' else bytes.fromhex(case['block'])
+
+    def judge(form):
+        tag, dev = run_block(case['number'], block, form)
+        want = ['B%d:%s' % (case['number'], _hx(block))]
+        got = dev18.trace_tokens(dev.trace)
+        c = _Collect()
+        if got != want:
+            sig = 'C18:upload-block:data'
+            if len(got) == 1 and got[0].startswith('B') and got[0].split(':')[0] != want[0].split(':')[0]:
+                sig = 'C18:upload-block:number'
+            c.violate(sig, 'upload_firmware_block(%d, <%d bytes>) does not send one Upload firmware block request with '
+                      'that number and exactly those bytes' % (case['number'], len(block)), case,
+                      expected=' '.join(want)[:200], observed=(' '.join(got) or 'no request')[:200] + ' -> ' + tag)
+        elif tag != 'ok':
+            c.violate('C18:upload-block:raises:' + tag, 'upload_firmware_block fails although the device accepted the '
+                      'block', case, expected='ok', observed=tag)
+        return c.violations
+    form = case.get('form', 'bytes')
+    found = judge(form)
+    if found and form != 'bytes':
+        plain = set(v['signature'] for v in judge('bytes'))
+        for v in found:
+            if v['signature'] not in plain:
+                v['signature'] = _form_sig(v['signature'], form)
+                v['what'] = 'block given as %s: %s (the same call with a bytes object conforms)' % (FORM_NAMES[form], v['what'])
+    return found
+
+
+def block_stream(ctx, rng, n):
+    directed = [b'', b'\x00', b'\x7f', b'\x80', b'\xff', bytes(range(0x75, 0x8b)), bytes(range(0xea, 0x100)),
+                b'\xff' * 22, b'\x80' * 22, b'\x00' * 22, b'ASCII only block 22 b.', b'\xc3\xa9\xc2\x80', b'A' * 21 + b'\xe9']
+    numbers = [0, 1, 0x7f, 0x80, 0xfe, 0xff]
+    cases = [(numbers[i % len(numbers)], blk) for i, blk in enumerate(directed)]
+    for _ in range(n):
+        ln = rng.choice([1, 2, 21, 22]) if rng.random() < 0.4 else rng.randrange(0, 23)
+        r = rng.random()
+        blk = _rb(rng, ln) if r < 0.6 else bytes(rng.randrange(0x80, 0x100) for _ in range(ln)) if r < 0.8 \
+            else bytes(rng.randrange(0x80) for _ in range(ln))
+        cases.append((rng.choice(numbers) if rng.random() < 0.5 else rng.randrange(256), blk))
+    for number, blk in cases:
+        for form in dev18.FORMS:
+            case = {'kind': 'block', 'number': number, 'block': _hx(blk), 'form': form}
+            ctx.case(('block', number, blk, form), nontrivial=len(blk) > 0)
+            ctx.count('block:form=' + form)
+            if form == 'str':
+                ctx.count('block:form=str:' + ('with-characters-80h..FFh' if any(b >= 0x80 for b in blk) else '7-bit-only'))
+            ctx.count('block:len=' + ('0' if not blk else '1..21' if len(blk) < 22 else '22'))
+            ctx.violations.extend(block_findings(case))
 
 
 def chunks_stream(ctx, drv, rng, n):
@@ -1344,10 +1490,9 @@ def shrink_parse(work, v):
 def _upload_violation(case, sig):
     binary = b'' if case['binary'] == '-' else bytes.fromhex(case['binary'])
     plan = parse_plan(case['plan'])
-    tag, now, dev = run_upload(binary, plan, case['timeout'], case['interval'], case['lat'], case['retry'])
-    c = _Collect()
-    judge_upload(c, case, binary, plan, case['timeout'], tag, dev)
-    for v in c.violations:
+    tag, now, dev = run_upload(binary, plan, case['timeout'], case['interval'], case['lat'], case['retry'],
+                               form=case.get('form', 'bytes'))
+    for v in upload_findings(case, binary, plan, tag, dev):
         if v['signature'] == sig:
             return v
     return None
@@ -1470,7 +1615,8 @@ def _streams(ctx, tag, scale):
         confirm_single_parses(ctx, first)
         malformed_stream(ctx, drv, work, variant, ctx.rng(tag + '/malformed'), int(60 * scale))
         chunks_stream(ctx, drv, ctx.rng(tag + '/chunks'), int(150 * scale))
-        upload_streams(ctx, drv, ctx.rng(tag + '/upload'), scale)
+        block_stream(ctx, ctx.rng(tag + '/block'), int(15 * scale))
+        upload_streams(ctx, drv, ctx.rng(tag + '/upload'), scale, ctx.rng(tag + '/upload-form'))
         minimise(ctx, work)
     finally:
         work.close()
@@ -1539,13 +1685,27 @@ def replay(ctx, v):
         binary = b'' if case['binary'] == '-' else bytes.fromhex(case['binary'])
         plan = parse_plan(case['plan'])
         prior = [tuple(x) for x in case.get('prior', [])]
-        tag, now, dev = run_upload(binary, plan, case['timeout'], case['interval'], case['lat'], case['retry'], prior)
+        form = case.get('form', 'bytes')
+        tag, now, dev = run_upload(binary, plan, case['timeout'], case['interval'], case['lat'], case['retry'], prior, form)
+        print('binary handed to upload_binary as %s%s' % (FORM_NAMES[form], '' if form != 'str' else
+              ' (%d of its characters are 80h..FFh)' % sum(1 for b in binary if b >= 0x80)))
         if prior:
             print('after %d earlier upload(s) on the same Ipmi object: %s' % (
                 len(prior), ', '.join('%d bytes' % (0 if a == '-' else len(a) // 2) for a, _ in prior)))
         print('upload of %d bytes, plan %s -> %s' % (len(binary), case['plan'][:80], tag))
         print('  requests: %s' % ' '.join(dev18.trace_tokens(dev.trace))[:400])
-        judge_upload(c2, case, binary, plan, case['timeout'], tag, dev)
+        sent = b''.join(ev[2] for ev in dev.trace if ev[0] == 'B')
+        print('  binary  : %d bytes %s' % (len(binary), _hx(binary[:32])))
+        print('  on wire : %d bytes %s, largest block %d bytes' % (
+            len(sent), _hx(sent[:32]), max([len(ev[2]) for ev in dev.trace if ev[0] == 'B'] or [0])))
+        c2.violations.extend(upload_findings(case, binary, plan, tag, dev))
+    elif case.get('kind') == 'block':
+        tag, dev = run_block(case['number'], b'' if case['block'] == '-' else bytes.fromhex(case['block']),
+                             case.get('form', 'bytes'))
+        print('upload_firmware_block(%d, %s as %s) -> %s' % (case['number'], case['block'],
+                                                           FORM_NAMES[case.get('form', 'bytes')], tag))
+        print('  requests: %s' % (' '.join(dev18.trace_tokens(dev.trace)) or 'none')[:300])
+        c2.violations.extend(block_findings(case))
     elif case.get('kind') == 'chunks':
         from pyipmi.utils import chunks
         data = b'' if case['data'] == '-' else bytes.fromhex(case['data'])
